@@ -40,17 +40,21 @@ Fits(s, o, m) == o + J(s) <= m
 MsgLen(s, o, pw) == o - (5 - pw) + J(s)     \* pw = number of digits of the port
 
 (* ---------------- what the property demands of the construction --------------- *)
-BuildOK(d, o, m, en, r) ==
+(* sl = 5 - digits of the widest port the node listens on (0..4): the messages really  *)
+(* sent are that much shorter than the worst case.  The responder must be enabled and  *)
+(* the description unchanged when that holds even for a five digit port; what is sent  *)
+(* must fit for the ports in use; in the gap either way is allowed.                    *)
+BuildOK(d, o, m, sl, en, r) ==
     /\ Fits(<<>>, o, m) => en                          \* identity fits: must answer
     /\ en => /\ IsPrefix(r, d)                         \* cut on a character boundary
-             /\ Fits(r, o, m)                          \* bounded message
+             /\ Fits(r, o - sl, m)                     \* bounded message
              /\ (Fits(d, o, m) => r = d)               \* nothing cut without need
-AllowedK(d, o, m) == {k \in 0 .. Len(d) : BuildOK(d, o, m, TRUE, Prefix(d, k))}
+AllowedK(d, o, m, sl) == {k \in 0 .. Len(d) : BuildOK(d, o, m, sl, TRUE, Prefix(d, k))}
 MayDisable(o, m) == ~ Fits(<<>>, o, m)
 (* the same set computed from the cumulative widths (cheap form used for behaviour      *)
 (* emission; equality with AllowedK is an invariant of the MC configurations)           *)
 JCum(d) == [k \in 0 .. Len(d) |-> J(Prefix(d, k))]
-AllowedKFast(jc, n, o, m) == IF o + jc[n] <= m THEN {n} ELSE {k \in 0 .. n : o + jc[k] <= m}
+AllowedKFast(jc, n, o, m, sl) == IF o + jc[n] <= m THEN {n} ELSE {k \in 0 .. n : o - sl + jc[k] <= m}
 
 (* ---------------- the construction as designed (model of the algorithm) ------- *)
 CutRaw(d, n) ==   \* utf8(d)[:n] decoded ignoring a trailing partial glyph
@@ -114,12 +118,14 @@ TypeOK == /\ desc \in Seq(Glyphs) /\ res \in Seq(Glyphs) /\ max \in Int
           /\ phase \in {"input", "built", "running", "off"}
           /\ enabled \in BOOLEAN /\ alive \in BOOLEAN /\ nports \in Nat
 
-BuildSound == phase # "input" => BuildOK(desc, O, max, enabled, res)
+Slacks == 0 .. 4
+BuildSound == phase # "input" => \A sl \in Slacks : BuildOK(desc, O, max, sl, enabled, res)
 MsgBound == (phase # "input" /\ enabled) => \A pw \in 1 .. 5 : MsgLen(res, O, pw) <= max
 (* the allowed results form an interval of prefix lengths (used by the replay driver) *)
-AllowedInterval == phase = "input" =>
-    LET ks == AllowedK(desc, O, max) IN ks # {} => ks = Min(ks) .. Max(ks)
-FastIsAllowed == phase = "input" => AllowedKFast(JCum(desc), Len(desc), O, max) = AllowedK(desc, O, max)
+AllowedInterval == phase = "input" => \A sl \in Slacks :
+    LET ks == AllowedK(desc, O, max, sl) IN ks # {} => ks = Min(ks) .. Max(ks)
+FastIsAllowed == phase = "input" => \A sl \in Slacks :
+    AllowedKFast(JCum(desc), Len(desc), O, max, sl) = AllowedK(desc, O, max, sl)
 (* the start-up announcement obeys the bound as well (a disabled responder keeps quiet) *)
 AnnounceBounded == (last.kind = "start" /\ last.announced # {}) => last.len <= max
 Alive == phase = "running" => alive
